@@ -75,6 +75,15 @@ Theorem C16_forward_misc : sink_stores_filter = true /\ ffi_filter_conversion_is
 Proof. exact forward_misc. Qed.
 Print Assumptions C16_forward_misc.
 
+(* Through the C ABI a filter is given as a string: rodbus_address_filter_create first tries an IP literal
+   (one-element set), else the wildcard parser. For the IPv4 part (model of Ipv4Addr::from_str: 1-3 digits,
+   no leading zero, <= 255): every accepted string is a well-formed wildcard string and the filter built
+   admits exactly the peers of that wildcard - so an IPv4 literal means "exactly this address". *)
+Theorem C16_ffi_filter_string : forall s f, ffi_filter_v4 s = Some f ->
+  exists w, wildcard_string s w /\ forall peer, matches f peer = matches (WildcardIpv4 w) peer.
+Proof. exact ffi_filter_is_wildcard_semantics. Qed.
+Print Assumptions C16_ffi_filter_string.
+
 (* non-vacuity *)
 Example C16_parse_examples :
   map show_parse [[49;55;50;46;49;55;46;50;48;46;42]; [43;49;46;48;48;55;46;42;46;51]; [49;46;50;46;51];
